@@ -30,6 +30,10 @@ def nontrivial(t):
 
 def main():
     ck = core.Check("C07", "model_checking")
+    if ck.args.replay:
+        from vlib import sysrun as _sr
+
+        _sr.replay(ck, "C07", ck.args.replay)
     cov = sysrun.model_part(ck, "C07", variants=["maskfields", "keepinf"], tier=ck.tier)
     limit = 48 if ck.tier == "quick" else None
     jobs = sysrun.product_jobs(FACTORS, {"n_particles": 8}, ck.seed + 7, limit=limit, flags=[(True, True, True, True), (False, True, True, False)])
